@@ -5,6 +5,10 @@ Import ListNotations.
 Global Arguments firstn : simpl never.
 Global Arguments skipn : simpl never.
 
+(* the translated constants are sane (re-checked whenever GenConsts.v is regenerated) *)
+Lemma consts_wf : (0 < tick_interval)%Z /\ (0 <= default_lifetime)%Z /\ (0 < dnl_batch)%nat.
+Proof. unfold tick_interval, default_lifetime, dnl_batch. vm_compute. repeat split; try reflexivity; try discriminate; apply le_n_S, Nat.le_0_l. Qed.
+
 (* ---- names ---- *)
 Lemma name_eqb_eq : forall a b, name_eqb a b = true <-> a = b.
 Proof.
